@@ -4111,3 +4111,113 @@ def ob_group_state(ctx, jobs_per_route):
             res.status, res.detail = 'inconclusive', f'vacuous: accepted={saw_ok} rejected={saw_rej}'
     res.time = time.time() - t0
     return res
+
+
+# ---------------------------------------------------------------------------------------------------------------------
+# C14 (registry as the heuristics use it): an insertion context made from a solution
+
+def ob_ctx_from_solution(ctx, n_actors):
+    """C14 (vehicle bookkeeping matches the tours): `create_insertion_context_from_solution` (real MIR, with the real
+    `Registry::{deep_copy,use_actor,free_actor}`, `RegistryContext::new`, `Route::deep_copy`) on a solution in which every
+    actor symbolically has no tour, a tour WITHOUT jobs, or a tour with one job, and the solution's registry marks exactly the
+    actors with a listed tour as used (what the initial-solution readers produce).  The resulting context keeps exactly the
+    job-carrying tours (own copies, in order) and its registry offers a vehicle exactly when no kept tour uses it - in
+    particular the vehicle of a listed tour without jobs is available again."""
+    from symex import AMapV, ASetV, DynV
+    name = f'ctx_from_solution[actors={n_actors}]'
+    res = Result(name)
+    res.bounds = f'{n_actors} actors in one group; per actor: no tour / tour without jobs / tour with one job (symbolic); goal and solution-level refresh are environment no-ops'
+    t0 = time.time()
+    fn = ctx.prog.find_free('create_insertion_context_from_solution')
+
+    class Env(drivers.Env):
+        symbolic_maps = True
+
+        def override(self, engine, st, callee, args, dest_ty):
+            if callee.endswith('update_insertion_context'):
+                return UnitV()
+            if callee.endswith('GoalContext::accept_route_state') or callee.endswith('GoalContext::accept_solution_state'):
+                return UnitV()
+            if callee.endswith('Multi::roots'):
+                return mk_option(False, ty=dest_ty)
+            if callee.endswith('Activity::retrieve_job'):
+                return NotImplemented
+            return super().override(engine, st, callee, args, dest_ty)
+
+    env = Env(ctx.prog, ctx.layout, 8)
+    eng = symex.Engine(ctx.prog, ctx.layout, env)
+    z = FV.const(0)
+
+    def body(st):
+        env.assumptions.clear()
+        actors, kinds, routes = [], [], []
+        for i in range(n_actors):
+            actor = env.actor(IV(0), z, IV(0), FV.const(1000))
+            actors.append(actor)
+            c = z3.Int(f'actor{i}_tour')
+            kind = eng.choose(st, [(c == 0, 'none'), (c == 1, 'empty'), (c == 2, 'job')])
+            kinds.append(kind)
+            if kind == 'none':
+                continue
+            acts = [env.activity(IV(0), z, z, FV.max_value(), z, z, has_job=False)]
+            jobs = []
+            if kind == 'job':
+                s_ = ArcV(Cell(env.struct('jobs::Single', places=VecV([]), dimens=StateV({'job_id': Opaque(f'"job{i}"')}))))
+                acts.append(env.activity(IV(0), z, z, FV.max_value(), z, z, job=s_))
+                jobs.append(EnumV('jobs::Job', 0, {0: [s_]}))
+            acts.append(env.activity(IV(0), z, z, FV.max_value(), z, z, has_job=False))
+            tour = env.struct('solution::tour::Tour', activities=VecV(acts), jobs=AMapV([(jv, UnitV()) for jv in jobs], True), is_closed=BV(True))
+            routes.append((i, env.struct('route::Route', actor=actor, tour=tour)))
+        # the solution's registry: exactly the actors with a listed tour are in use
+        avail = [z3.BoolVal(k == 'none') for k in kinds]
+        registry = env.struct('registry::Registry', available=AMapV([(IV(0), ASetV(list(actors), avail))]), index=AMapV([(a, IV(0)) for a in actors]),
+                              all=VecV(list(actors)), random=ArcV(Cell(DynV('random'))))
+        solution = env.struct('domain::Solution', cost=z, registry=registry, routes=VecV([r for _, r in routes]), unassigned=VecV([]), telemetry=mk_option(False, ty='Option<TelemetryMetrics>'))
+        po = ctx.layout.fields('domain::Problem')
+        problem = ArcV(Cell(Agg('struct', [VecV([]) if f == 'locks' else ArcV(Cell(Opaque(f))) for f in po], 'domain::Problem')))
+        out = eng.exec_fn(st, fn, [problem, Agg('tuple', [solution, mk_option(False, ty='Option<f64>')], ''), ArcV(Cell(Opaque('environment')))])
+        return (kinds, actors, routes, out)
+
+    paths = eng.explore(body, max_paths=4000)
+    res.paths = len(paths)
+    res.functions |= eng.functions_used
+    for st, out in paths:
+        if out is None:
+            if not no_panic(ctx, res, env, st, what=name):
+                break
+            continue
+        kinds, actors, routes, ictx = out
+        sol = env.field(ictx, 'context::InsertionContext', 'solution')
+        kept = env.field(sol, 'context::SolutionContext', 'routes').items
+        rctx = env.field(sol, 'context::SolutionContext', 'registry')
+        reg = env.field(rctx, 'context::RegistryContext', 'registry')
+        problems = []
+        want = [i for i, k in enumerate(kinds) if k == 'job']
+
+        def actor_index(rc):
+            a = env.field(env.field(deref_all(rc), 'context::RouteContext', 'route'), 'route::Route', 'actor')
+            return next((i for i, x in enumerate(actors) if deref_all(a).cell is x.cell), None)
+        got = [actor_index(rc) for rc in kept]
+        if got != want:
+            problems.append(f'kept tours are those of actors {got}, the job-carrying tours are those of {want}')
+        # own copies: no activity object shared with the solution
+        src_acts = [a for _, r in routes for a in env.field(env.field(r, 'route::Route', 'tour'), 'solution::tour::Tour', 'activities').items]
+        if any(a is b for rc in kept for a in env.tour_activities(deref_all(rc)) for b in src_acts):
+            problems.append('a kept tour shares activities with the solution it was made from')
+        conds = []
+        for _, sv in env.field(reg, 'registry::Registry', 'available').entries:
+            members = {id(k.cell): p for k, p in zip(sv.keys, sv.present)} if isinstance(sv, ASetV) else {id(deref_all(k).cell): z3.BoolVal(True) for k, _ in sv.entries}
+            for i, a in enumerate(actors):
+                conds.append(members.get(id(a.cell), z3.BoolVal(False)) == z3.BoolVal(kinds[i] != 'job'))
+        claim = z3.And(z3.BoolVal(not problems), *conds)
+        if not decide_claim(ctx, res, env, st, claim, what=f'{name}: tours per actor {kinds}: ' + ('; '.join(problems) or 'vehicle availability != "no kept tour uses it"')):
+            if res.status == 'violated':
+                res.case = {'kind': 'ctx_from_solution', 'tours': kinds}
+            break
+        if not no_panic(ctx, res, env, st, what=name):
+            break
+        res.witnesses += 1
+    if res.status == 'holds' and res.witnesses == 0:
+        res.status, res.detail = 'inconclusive', 'vacuous'
+    res.time = time.time() - t0
+    return res
